@@ -157,8 +157,15 @@ func Gen(t *rapid.T) Case {
 	case "shell":
 		c.Shell = true
 
-		for i := 0; i < rapid.IntRange(0, 2).Draw(t, "nMotd"); i++ {
-			c.Motd = append(c.Motd, safeText(t))
+		// 45+: a message of the day longer than the default prompt search depth (1000 bytes)
+		nMotd := rapid.SampledFrom([]int{0, 1, 2, 0, 1, 2, 45, 70}).Draw(t, "nMotd")
+		for i := 0; i < nMotd; i++ {
+			l := safeText(t)
+			if nMotd > 2 {
+				l = fmt.Sprintf("* notice %03d: %s", i, l)
+			}
+
+			c.Motd = append(c.Motd, l)
 		}
 	case "error":
 		c.Rounds = append(c.Rounds, Round{K: "error", Text: rapid.SampledFrom(sshErrors).Draw(t, "sshError")})
@@ -516,12 +523,30 @@ func Run(c Case) (res Result) {
 
 		// without typing anything, what login consumed (at least the shell prompt it stopped at)
 		// is readable again
-		if rb, rerr := d.Channel.ReadAll(); rerr != nil || !strings.Contains(string(rb), strings.TrimSpace(shellPrompt)) {
+		rb, rerr := d.Channel.ReadAll()
+		if rerr != nil || !strings.Contains(string(rb), strings.TrimSpace(shellPrompt)) {
 			res.Verdict = ev.Fail("bytes consumed by login are not available after Open: ReadAll = %q, %v", rb, rerr)
 
 			_ = d.Close()
 
 			return res
+		}
+
+		// ... and so is everything the device printed between the last credential and that prompt
+		rest := string(rb)
+
+		for i, l := range c.Motd {
+			j := strings.Index(rest, l)
+			if j < 0 {
+				res.Verdict = ev.Fail("bytes consumed by login are not available after Open: banner line %d of %d (%q) is missing from (or out of order in) what can be read back (%d bytes: %q ...)",
+					i, len(c.Motd), l, len(rb), rb[:min(len(rb), 120)])
+
+				_ = d.Close()
+
+				return res
+			}
+
+			rest = rest[j+len(l):]
 		}
 
 		p, perr := d.GetPrompt()
